@@ -192,7 +192,7 @@ func TestVerifC02Text(t *testing.T) {
 		jobs = append(jobs, "route add ok foo.com/ http://10.0.0.2:80/\nroute add s "+h+"/x http://10.0.0.1:80/\n")
 	}
 	// (d)
-	for _, l := range []string{"", "\n\n", "route", "route add", "route add a", "route add a b", "route del", "route weight", "route weight a b weight", "route add a b c weight", "route add a b c tags", "route add a b c tags \"", "route add a b c opts \"a b=c d==\"", "# c\n// d", "route add s  /x   http://h/   weight   0.1   tags   \"a , b\"", "route foo", "ROUTE ADD a b c", "route add s \x00 http://h/", "route add s / \x00", "route del s / %zz", "route del tags \"\"", "route add s foo.com:80 tcp://h:1", "route add s :80 tcp://h:1 opts \"proto=tcp\"", strings.Repeat("route add s /p http://h/ weight 0.0001\n", 3), "route add s " + strings.Repeat("a", 70000) + " http://h/"} {
+	for _, l := range []string{"", "\n\n", "route", "route add", "route add a", "route add a b", "route del", "route weight", "route weight a b weight", "route add a b c weight", "route add a b c tags", "route add a b c tags \"", "route add a b c opts \"a b=c d==\"", "# c\n// d", "route add s  /x   http://h/   weight   0.1   tags   \"a , b\"", "route foo", "ROUTE ADD a b c", "/", "#", "r", " / ", "//", "/\n/x", "route add s /p http://h/\n/", "route add s \x00 http://h/", "route add s / \x00", "route del s / %zz", "route del tags \"\"", "route add s foo.com:80 tcp://h:1", "route add s :80 tcp://h:1 opts \"proto=tcp\"", strings.Repeat("route add s /p http://h/ weight 0.0001\n", 3), "route add s " + strings.Repeat("a", 70000) + " http://h/"} {
 		jobs = append(jobs, l)
 	}
 	L.Set("texts", len(jobs))
